@@ -773,6 +773,14 @@ impl<'de> serde::de::Visitor<'de> for LocaleSeed<'_> {
                 foreign_keys_paths: self.foreign_keys_paths,
             })?;
             self.key_path.pop_key();
+            // keys are trimmed: two keys of the file can be the same key (`"a"` and `" a"`), the deserializers
+            // don't report repeated keys either. Keeping the last one would make the result depend on their order.
+            if keys.contains_key(&locale_key) {
+                return Err(serde::de::Error::custom(format!(
+                    "duplicate key {:?}",
+                    locale_key.name
+                )));
+            }
             keys.insert(locale_key, value);
         }
 
